@@ -78,9 +78,9 @@ PROPS['C28'] = {
 }
 
 
-EDIT_RULE = '8 base-module shapes (0-4 function imports interleaved with global/memory/table/tag imports, 0-4 local functions, globals recognisable by marker or type, 1-3 memories, exports, start, passive/expression/active elements, table initialiser, active data with global.get offsets; every entity carries a unique marker, every reference site a unique tag) x histories of 0-8 operations over 17 operation kinds (ids chosen among live handles, 1/12 of the sites deliberately target a deleted entity) x optional second encode; distinct by case line; non-trivial when the history has at least one operation'
+EDIT_RULE = '8 base-module shapes (0-4 function imports interleaved with global/memory/table/tag imports, 0-4 local functions, globals recognisable by marker or type, 1-3 memories, exports, start, passive/expression/active elements, table initialiser, active data with global.get offsets; every entity carries a unique marker, every reference site a unique tag) x histories of 0-8 operations over 17 operation kinds (ids chosen among live handles, 1/12 of the sites deliberately target a deleted entity) x optional second encode; one case in five is bounded-exhaustive instead of random: a fixed base per (shape, focus = function / global / memory space) and a history read off the case number digit by digit (bijective numeration) over all operations available in the current world, so that every history of length 0, 1, 2, ... over that alphabet occurs exactly once, shortest first (quick tier: all of length <= 1; thorough: all of length <= 2 and the first ones of length 3, per base and focus); distinct by case line; non-trivial when the history has at least one operation'
 EDIT_TRUST = COMMON_TRUST + [
-        'state invariant SpaceInv (stored ids = positions; imported entries agree with the import list; unflagged vectors are laid out): proved sufficient for encode (encode_spec) and implied by the decidable check spaceInvB (spaceInvB_sound), which the model driver evaluates in front of the first encode of every generated history (observation line inv=); that every API operation preserves it is checked that way, not yet proved',
+        'state invariant SpaceInv (stored ids = positions; imported entries agree with the import list; unflagged vectors are laid out): proved sufficient for encode (encode_spec), proved inductive over every operation of the edit API (Lemmas/Preserve.lean: stInv_step, stInv_run) and implied for the parsed module by the decidable check stInvB, which the model driver evaluates on the initial state of every generated history (observation line inv=)',
         'modelled, not verified: the operator <-> site-variant table of the harness, wasm-encoder / RoundtripReencoder for everything that is not an index',
     ]
 def edit_prop(title, files, keys, level_text, technique, translator=False, quick=2500, thorough=150000, extra_assume=None):
